@@ -83,7 +83,7 @@ def check_case(ctx, cfg, seed):
     if cfg.ckpt_dir is not None:
         for name, (A, G) in truth.items():
             sd = torch.load(os.path.join(cfg.ckpt_dir, name))
-            if not (torch.equal(sd['A'], A) and torch.equal(sd['G'], G)):
+            if not (isinstance(sd.get('A'), torch.Tensor) and isinstance(sd.get('G'), torch.Tensor) and torch.equal(sd['A'], A) and torch.equal(sd['G'], G)):
                 ctx.fail(f'directory mode: file of layer {name} differs from the inverse worker\'s factors', case, 'neox-dir-content')
     # restore: factor workers hold the saved factors (+ second-order data when asked)
     if cfg.ops[ci] in ('l1', 'l0'):
@@ -255,7 +255,10 @@ def run(ctx):
             cfg.inv32 = rng.random() < 0.4
             if rng.random() < 0.3:
                 cfg.ckpt_dir = os.path.join(OUT, 'neox_ckpt', f'case{i}')
-        check_case(ctx, cfg, ctx.seed * 613 + i)
+        try:
+            check_case(ctx, cfg, ctx.seed * 613 + i)
+        except Exception as e:  # noqa: BLE001  (records not even of the expected form: missing factors, None where a tensor belongs)
+            ctx.fail(f'checkpoint records are malformed ({type(e).__name__}: {str(e)[:160]})', dict(cfg.describe(), sched_seed=ctx.seed * 613 + i), 'neox-ckpt-malformed')
         if cfg.ckpt_dir:
             shutil.rmtree(cfg.ckpt_dir, ignore_errors=True)
     for i in range(ctx.budget(6, 40)):
@@ -271,7 +274,10 @@ def run(ctx):
         else:
             # the same checkpoint object used for two roll-backs with training in between
             cfg.ops = ['f1', 's'] * a + ['k'] + ['f1', 's'] * b + ['B'] + ['f1', 's'] * b + ['B'] + ['f1', 's', 'v']
-        check_rollback(ctx, cfg, ctx.seed * 419 + i)
+        try:
+            check_rollback(ctx, cfg, ctx.seed * 419 + i)
+        except Exception as e:  # noqa: BLE001
+            ctx.fail(f'roll-back records are malformed ({type(e).__name__}: {str(e)[:160]})', dict(cfg.describe(), sched_seed=ctx.seed * 419 + i), 'neox-ckpt-malformed')
     # every rank's collectives of the whole history, checkpoint calls included (object gather, barriers), against the
     # projection of the global script of M-NeoxScript
     neoxsim.compare_script(ctx, SCRIPT_PEND)
